@@ -12,23 +12,32 @@ def classify(case_line):
 CFG = dict(
     imports=["From Verif.C18 Require Import Model Spec.", "Open Scope N_scope."],
     checker="check_case",
-    n=dict(quick=400, thorough=12000),
-    shard=50,
+    n=dict(quick=300, thorough=12000),
+    shard=15,
     classify=classify,
     rule="op sequences (6-40 ops) over 2-6 keys x 1-4 values on the real DeltaTracker[int,int] with valuesEqual = (==) "
          "(KExact), valuesEqual = (a/2==b/2) (KCoarse) and SetDeltaTracker[int] (KSet): Desired Set/Delete/DeleteAll, "
          "Dataplane Set/Delete/DeleteAll, ReplaceAllMap, ReplaceAllIter/ReplaceFromIter with a chosen order and an error "
          "after a prefix, PendingUpdates().Iter / PendingDeletions().Iter with a per-key answer table "
-         "(NoOp/UpdateDataplane/NoOpStopIteration) in the runtime's iteration order; all four views (Iter, Len, Get on "
-         "7 keys) dumped after every op through view handles taken once at creation.  1/8 of the cases ('stream:dup') "
-         "let the iterator produce a key twice.  non-trivial = some iteration applied an update/deletion, some "
-         "replacement happened and at some point updates and deletions were pending together; distinct by (kind, ops)",
+         "(NoOp/UpdateDataplane/NoOpStopIteration) in the runtime's iteration order, both IterBatched variants with random "
+         "applyFn answers (whole batch, partial, failing item, zero); all four views (Iter, Len, Get on 7 keys) dumped "
+         "after every op through view handles taken once at creation, plus the batches applyFn was shown.  1/8 of the "
+         "tracker cases ('stream:dup') let the iterator produce a key twice; 1/40 of the cases ('stream:big') use 130-330 "
+         "keys so that IterBatched's first loop fills batches of 128 mid-range; 1/5 of the cases (KCache) drive the real "
+         "CachingMap[int,int] over a fake DataplaneMap with injected Load/Update/Delete failures, out-of-band writes, "
+         "LoadCacheFromDataplane, ApplyUpdatesOnly/ApplyDeletionsOnly/ApplyAllChanges (real map and error count dumped "
+         "too).  non-trivial = tracker: some iteration applied an update/deletion, some replacement happened and at some "
+         "point updates and deletions were pending together; cache: a successful and a failed ApplyAllChanges and an "
+         "out-of-band write; big: always; distinct by (kind, ops)",
     trusted=["Coq 8.16.1 kernel + vm_compute",
              "hand-written model coq/theories/C18/Model.v tied to felix/deltatracker by this correspondence run",
              "Go driver harness/C18 (overlay build, tag verif)"],
     assumptions=["valuesEqual is a decidable equivalence relation on values (Section hypotheses veq_refl/veq_sym/veq_trans)",
                  "callbacks passed to Iter and iterators passed to ReplaceAllIter do not themselves call into the tracker",
-                 "Go map range yields every key present exactly once when the body only deletes the current key"],
+                 "Go map range yields every key present exactly once when the body only deletes the current key",
+                 "IterBatched: applyFn's answers satisfy applied <= len(batch) and err => applied < len(batch) (else Go panics)",
+                 "CachingMap theorems: nobody writes the dataplane map behind the cache's back between Load and Apply (CI); "
+                 "the batched DataplaneBatchedMap path of CachingMap is covered only through the IterBatched theorems"],
 )
 
 def run(ctx):
